@@ -23,6 +23,7 @@ CL == INSTANCE CPyLines
 L == INSTANCE Lines
 V == INSTANCE Versions
 P == INSTANCE DecodeProps
+NZ == INSTANCE Normalize
 
 Tr == ndJsonDeserialize(IOEnv.TRACE_FILE)
 
@@ -54,6 +55,12 @@ Clauses(e) ==
     LET ver == e.ver
         ok == e.out.exc = ""
         c == [e.c EXCEPT !.flags = ToSet(e.c.flags)]
+        c0 == [e.c0 EXCEPT !.flags = ToSet(e.c0.flags)]
+        \* for C05/C06 nested code constants are identified by meaning, not by bits
+        cS == [c EXCEPT !.consts = c.consts_sem]
+        c0S == [c0 EXCEPT !.consts = c0.consts_sem]
+        dS == [e.d EXCEPT !.instrs = [j \in DOMAIN e.d.instrs |->
+                                        IF e.ksem[j] # -1 THEN [e.d.instrs[j] EXCEPT ![3] = e.ksem[j]] ELSE e.d.instrs[j]]]
         d == [e.d EXCEPT !.exc = IF ok THEN "" ELSE "to_code raised"]
         scale == V!JumpScale(ver)
         lt == V!UseLinetable(ver)
@@ -67,9 +74,11 @@ Clauses(e) ==
         njumps == Cardinality({j \in DOMAIN e.d.instrs : e.d.instrs[j][2] = "J"})
         outUnits == [k \in 1..ncode |-> <<c.units[k][2], c.units[k][3]>>]
         same == ok /\ m.exc = ""
-        props == P!PropClauses(c, ver, d, c.cpy_lines, e.insp, <<>>)
+        allprops == P!PropClauses(c, ver, d, c.cpy_lines, e.insp, <<>>)
+        \* clauses about the DECODER's choices do not apply to hand-built / normalised input data
+        props == SelectSeq(allprops, LAMBDA x: x[1] \notin {"P09.additional", "P09.justified", "P13.targets"})
         \* the data's block boundaries are exactly the jump targets (what a decoder can give back)
-        canonical == \E i \in DOMAIN props : props[i][1] = "P13.targets" /\ props[i][2]
+        canonical == \E i \in DOMAIN allprops : allprops[i][1] = "P13.targets" /\ allprops[i][2]
     IN <<
         <<"ENV.dis", ok => U!DisRead(c, scale) = c.dis>>,
         <<"ENV.lines", ok => cpylines = c.cpy_lines>>,
@@ -80,6 +89,16 @@ Clauses(e) ==
         \* ---------------- C01 (events whose input data was decoded from a real code object)
         <<"P01.to_code", (e.src = "decoded") => ok>>,
         <<"P01.identical", (e.src = "decoded" /\ e.rt.ran /\ ok) => e.rt.same>>,
+        \* ---------------- C05 / C06 (events whose input data is normalize(from_code(c0)))
+        <<"ENV.dis0", e.has_c0 => U!DisRead(c0, scale) = c0.dis>>,
+        <<"P05.sem", (e.has_c0 /\ ok) => NZ!Sem(cS, scale, c.cpy_lines) = NZ!Sem(c0S, scale, c0.cpy_lines)>>,
+        <<"P05.nofree", (e.has_c0 /\ ok /\ ((6 \in c.flags) # (6 \in c0.flags))) =>
+                  \* CO_NOFREE appears only when a cell variable that nothing references went away
+                  (6 \in c.flags /\ Len(c0.freevars) = 0 /\ Len(c.cellvars) = 0 /\ Len(c0.cellvars) > 0)>>,
+        <<"P05.succeeds", e.has_c0 => ok>>,
+        <<"P06.canonical", e.has_c0 => NZ!Core(dS) = NZ!Canon(c0S, ver, c0.cpy_lines)>>,
+        <<"P06.stable", (e.has_c0 /\ ok /\ e.again.ran) => e.again.ok>>,
+        <<"P06.idempotent", e.has_c0 => (e.idem.eq /\ e.idem.hash /\ NZ!Core(NZ!Normalize(e.d)) = NZ!Core(e.d))>>,
         \* ---------------- C03
         <<"P03.terminates", ~e.out.timeout>>,
         <<"P03.succeeds", WellFormed(e.d, ver) => ok>>,
